@@ -94,6 +94,10 @@ func CodecCatalogue() []*Request {
 		M("Nul", F("nick", 1, "string", Opt(), Nullable(true)), F("age_years", 2, "int32", Opt(), Nullable(true)), F("big", 3, "int64", Opt(), Nullable(true)),
 			F("on", 4, "bool", Opt(), Nullable(true)), F("score", 5, "double", Opt(), Nullable(true)), F("plain_opt", 6, "string", Opt()), F("name", 7, "string")),
 	}, "Nul", ctxOpts{}))
+	// nullable on an optional ENUM field (accepted by ValidateNullableAnnotation)
+	add(featureReq("cxnullenum", []*Enum{E("Color", "COLOR_UNSPECIFIED", "COLOR_RED")}, []*Message{
+		M("NulE", F("color", 1, "", EnumT(q("cxnullenum", "Color")), Opt(), Nullable(true)), F("name", 2, "string")),
+	}, "NulE"))
 	add(contextReq("cxempty", nil, []*Message{
 		M("Meta", F("k", 1, "string"), F("n", 2, "int32")),
 		M("Emp", F("keep", 1, "", Msg(q("cxempty", "Meta")), Empty("PRESERVE")), F("nul_it", 2, "", Msg(q("cxempty", "Meta")), Empty("NULL")),
